@@ -8,6 +8,6 @@ _ALL = [
 INDEX = {
     "all": _ALL,
     "c16": _ALL,
-    "c16cat": [f"{k}@{pl}" for k in ("unreg", "switch3", "scan_reverse", "fori_dynamic", "dim_arith") for pl in ("top", "loop", "fn")],
+    "c16cat": [f"{k}@{pl}" for k in ("unreg", "switch3", "scan_reverse", "fori_dynamic", "dim_arith") for pl in ("top", "loop", "fn")] + ["dim_no_origin@fn", "dim_no_origin@nested_fn"],
     "c13": ["flat", "net", "outer", "fn_boundary", "eqx_block", "plain", "jit_cold", "jit_cold2", "flat_f64", "fn_boundary_f64", "cf_nested", "kwblock", "cf_fn_in_scan"],
 }
